@@ -114,6 +114,10 @@ class Workspace:
                 o += ["zz_pad:"] + ["  key_%04d: value_%04d_%s" % (i, i, "x" * 12) for i in range(f["pad"])]
             return "\n".join(o) + "\n"
         if k == "custom":
+            if f.get("commented"):
+                # a custom file whose every line is commented out (or that is empty): exists, has an mtime, parses to an
+                # empty document — the user's way of switching a customisation off
+                return "" if f["commented"] == "empty" else "# patch:\n#   menu/page_size: 7\n# (switched off)\n"
             o = ["patch:"]
             for key, val in f["patch"]:
                 if isinstance(val, list):
@@ -199,7 +203,7 @@ class Workspace:
         dict_, prism, packs, deps = f.get("dict"), f.get("prism"), list(f.get("packs") or []), list(f.get("deps") or [])
         crel = self.resolve(sid + ".custom.yaml")
         if crel:
-            for key, val in self.files[crel]["patch"]:
+            for key, val in ([] if self.files[crel].get("commented") else self.files[crel]["patch"]):
                 if key == "translator/dictionary":
                     dict_ = val
                 elif key == "translator/prism":
@@ -218,7 +222,7 @@ class Workspace:
         l = list(self.files[rel]["schema_list"])
         crel = self.resolve("default.custom.yaml")
         if crel:
-            for key, val in self.files[crel]["patch"]:
+            for key, val in ([] if self.files[crel].get("commented") else self.files[crel]["patch"]):
                 if key == "schema_list":
                     l = [v.split(":", 1)[1].strip().rstrip("}").strip() if "schema:" in v else v for v in val]
         return l
